@@ -338,7 +338,9 @@ class HalfRankComponent(OutputWarper):
     )
 
     # Rank sort.
-    ranks = stats.rankdata(labels_arr, method='dense')  # nans ranked last.
+    # Dense ranks among the finite labels. (`stats.rankdata` propagates NaNs in
+    # recent scipy versions; the ranks of NaN entries are never used.)
+    ranks = unique_labels.searchsorted(labels_arr, 'left') + 1
     dedup_median_index = unique_labels.searchsorted(median, 'left')
     denominator = (
         dedup_median_index + (unique_labels[dedup_median_index] == median) * 0.5
